@@ -32,7 +32,7 @@ def run(tier, replay=None):
         return contlib.run_replay(ctx, j, replay)
     quick = tier == "quick"
     pool = ThreadPoolExecutor(max_workers=8)
-    outer = ThreadPoolExecutor(max_workers=5)
+    outer = ThreadPoolExecutor(max_workers=6)
     seed = ctx.seed
 
     def xz_all():
@@ -45,10 +45,51 @@ def run(tier, replay=None):
         contlib.validate_lz_runs(ctx, j, runs, pool)
         return scns
 
+    def mt_unit_configs():
+        """MT writers: the lead's writer shapes (model-level scripts of full / partial iterations, merged and flushed) concretised for
+        unit sizes above, at and below the dictionary size - below it the unit size is raised to the dictionary size - plus plain
+        write partitions with pieces below the configured size, between it and the effective size and above the effective size.
+        Verdict: mtlib.judge's C18 oracle (every unit but the last holds exactly the effective unit size, none holds more)."""
+        from vlib import mtlib
+        from checks import mtwriter
+        rnd = random.Random(seed + 5)
+        scns = []
+        shapes = [c for c in mtwriter.cfgs(True) if c["name"].startswith(("w-merged", "w-partials", "w-ffx", "w-midflush", "w-3w"))]
+        n = 2 if quick else 20
+
+        def pol():
+            return {"kind": "random", "seed": rnd.getrandbits(40)}
+        for (raw, dsz) in mtwriter.UNIT_CONFIGS:
+            eff = max(raw, dsz)
+            for c in shapes:
+                for i in range(n):
+                    scns.append(mtwriter.make_scn(c, f"c18-{c['name']}-{raw}of{dsz}-{i}", pol(), unit=raw, dict_size=dsz))
+            for fam in ("lzma2_writer", "lzip_writer"):
+                for workers in (1, 3) if quick else (1, 2, 3, 4):
+                    for i in range(1 if quick else 6):
+                        scns += mtwriter.partition_scns(fam, raw, dsz, eff * 3 + eff // 3, workers, pol, f"c18-{fam}-{raw}of{dsz}-w{workers}-{i}", rnd)
+        if not any(s.get("dict_size", 0) > s["unit_len"] for s in scns):
+            raise core.ToolError("vacuous: no MT writer configuration with the unit size below the dictionary size")
+        res = mtlib.run_scenarios(scns)
+        nfull = 0
+        for s1, r1 in zip(scns, res):
+            j.nruns += 1
+            nfull += len(r1.get("unit_sizes") or []) > 1
+            j.classes.add(("mt-unit", s1["family"], s1["workers"], s1["unit_len"] < s1["dict_size"], s1.get("shape") or tuple(c["op"] for c in s1["calls"]),
+                           r1.get("outcome")))
+            for (pid, what, sig) in mtlib.judge(s1, r1):
+                j.violation(pid, what + f" [configured {s1['unit_len']}, dictionary {s1['dict_size']}, writes {[c.get('n', c['op']) for c in s1['calls']][:12]}]",
+                            dict(sig, clamped=s1["unit_len"] < s1["dict_size"]), {"scenario": dict(s1, log=False), "source": "mt-unit-configs", "mt": True})
+        if nfull < len(scns) // 2:
+            raise core.ToolError(f"vacuous: only {nfull} of {len(scns)} MT writer runs produced more than one unit")
+        ctx.add("mt_unit_config_executions", len(scns))
+        return scns
+
     fs = [outer.submit(xz_all), outer.submit(lz_all),
           outer.submit(lambda: contlib.family_lzma(ctx, j, quick, random.Random(seed + 2), pool)[0]),
           outer.submit(lambda: contlib.family_lzma2(ctx, j, quick, random.Random(seed + 3), pool)[0]),
-          outer.submit(lambda: contlib.family_mt_units(ctx, j, quick, random.Random(seed + 4))[0])]
+          outer.submit(lambda: contlib.family_mt_units(ctx, j, quick, random.Random(seed + 4))[0]),
+          outer.submit(mt_unit_configs)]
     scns = [s for f in fs for s in f.result()]
     outer.shutdown()
     pool.shutdown()
